@@ -219,6 +219,8 @@ def build_harness(pid, cfg):
     hdir = os.path.join(ROOT, "harness")
     with Lock("go.lock"):
         shutil.copyfile(os.path.join(REPO, "go.sum"), os.path.join(hdir, "go.sum"))
+        gomod = open(os.path.join(hdir, "go.mod.in")).read().replace("@REPO@", REPO)
+        open(os.path.join(hdir, "go.mod"), "w").write(gomod)
         tags = "verif " + " ".join(cfg.get("go_tags", ["verif_" + pid.lower()]))
         exe = os.path.join(BUILD, "h_" + pid)
         rc, out = sh(["timeout", "1200", "go", "build", "-tags", tags, "-o", exe, "."], cwd=hdir, env=GOENV)
